@@ -108,10 +108,16 @@ def sc_coherent(md):
     return bad
 
 
-def footprint(ctx, mds, docs):
+def footprint(ctx, mds, docs, per_doc=None):
     n = 0
-    for nm, md in mds.items():
-        for doc in docs:
+    names = sorted(mds)
+    plan = []
+    for doc in docs:
+        for nm in (names if per_doc is None else ctx.rng.sample(names, min(per_doc, len(names)))):
+            plan.append((nm, doc))
+    if True:
+        for nm, doc in plan:
+            md = mds[nm]
             before = summarize([("md", md)] + module_roots())
             try:
                 md(doc)
@@ -288,6 +294,12 @@ def run(ctx):
     mds["mistune.html"] = mistune.html
     fdocs = [d.replace("{i}", "7") for d in DEFS + USES] + docs[: (10 if q else 80)]
     nf = footprint(ctx, mds, fdocs)
+    # every definition together with every use (caches keyed by what a document defines fill only when both are present),
+    # deep nesting (paths that run only at the nesting limit), and syntax templates with edge fillers
+    combos = [d.replace("{i}", "3") + "\n" + u for d in DEFS for u in USES]
+    sweep = gen.slot_sweep()
+    ctx.rng.shuffle(sweep)
+    nf += footprint(ctx, mds, combos + sweep[: (150 if q else 1500)], per_doc=(2 if q else 4))
     hs = histories(ctx, 150 if q else 2000)
     nh = history_oracle(ctx, hs)
     nt = thread_oracle(ctx, docs, 2 if q else 12)
